@@ -546,11 +546,19 @@ func parseActions(logger debuglog.Logger, actions string) ([]ruleAction, error) 
 	afterKey := -1  // index after last char of key and before first char of value
 
 	inQuotes := false
+	// escaped is true when the current character follows an odd run of backslashes:
+	// in 'a\\' the closing quote is not escaped, the backslash before it is.
+	escaped := len(actions) > 0 && actions[0] == '\\'
 
 	for i := 1; i < len(actions); i++ {
 		c := actions[i]
-		if actions[i-1] == '\\' {
+		if escaped {
 			// Escaped character, no need to process
+			escaped = false
+			continue
+		}
+		if c == '\\' {
+			escaped = true
 			continue
 		}
 		if c == '\'' {
